@@ -699,9 +699,23 @@ func ruleC17(c *Check) {
 	c.reconstruction("C17.4")
 	c.paramSetExact("C17.9")
 	var qfns []*Func
-	for _, q := range append(append([]querySig{}, grpc...), legacy...) {
-		qfns = append(qfns, q.fn)
+	grpcSigs := map[string]bool{}
+	for _, g := range grpc {
+		grpcSigs[g.sig] = true
+		qfns = append(qfns, g.fn)
 	}
+	for _, l := range legacy {
+		// a legacy route without a gRPC counterpart is not one of the property's queries (a derived, read-only extra): it
+		// is judged by the read-only and keys-from-request rules alone
+		if grpcSigs[l.sig] {
+			qfns = append(qfns, l.fn)
+		}
+	}
+	var grpcFns []*Func
+	for _, g := range grpc {
+		grpcFns = append(grpcFns, g.fn)
+	}
+	c.grpcQueryFns = grpcFns
 	c.lookupsIndependentOfConfiguration("C17.10", qfns)
 	c.schemaNameNormalisation("C17.11", qfns)
 	// C17.6 id length checks before point lookups by request id
@@ -902,8 +916,19 @@ func (c *Check) lookupsIndependentOfConfiguration(rule string, entries []*Func) 
 			visit(h)
 		}
 	}
+	// helpers are followed from the gRPC methods (the QueryServer interface is the list of the property's queries); a
+	// legacy route contributes its own body — a helper that only an additional legacy route uses (a derived read-only extra
+	// such as "when is this deposit refundable") answers a different question
+	isGrpc := map[*Func]bool{}
+	for _, g := range c.grpcQueryFns {
+		isGrpc[g] = true
+	}
 	for _, f := range entries {
-		visit(f)
+		if len(c.grpcQueryFns) == 0 || isGrpc[f] {
+			visit(f)
+		} else if f.Body != nil && f.isHandWritten() {
+			reach[f] = true
+		}
 	}
 	var fs []*Func
 	for f := range reach {
